@@ -294,5 +294,10 @@ func planC15(w *World, spec RunSpec) {
 	w.Cfg.StopOn = "C15"
 	w.StartProcesses()
 	w.Disturb(w.Cfg.Ndist)
+	if w.Settle(w.Cfg.CalmBudget) && !w.stopNow {
+		if _, ok := w.probePasses(w.Cfg.CalmBudget); ok {
+			w.resynced = true
+		}
+	}
 	w.finish()
 }
